@@ -1133,6 +1133,25 @@ pub fn check_equality(ctx: &mut Ctx, h: &History, case: &str, seed: u64) {
             }
         }
     }
+    // different start squares (an extra bystander pawn), same moves where they are still legal
+    {
+        let mut sp = from_raw(&obs.start);
+        let spot = (0..64u8).filter(|&x| sp.at(x) == EMPTY && rank_of(x) != 0 && rank_of(x) != 7).nth(rng.below(8));
+        if let Some(x) = spot {
+            sp.sq[x as usize] = if rng.chance(1, 2) { b'P' } else { b'p' };
+            if sp.count(true) <= 16 && sp.count(false) <= 16 {
+                if let Ok(sb2) = to_board(&sp) {
+                    if let Ok(mut d) = MoveChain::from_uci_list(sb2, &ch.uci().to_string()) {
+                        d.reset_outcome(obs.outcome);
+                        if d == *ch || *ch == d {
+                            ctx.violation("chains_with_different_start_squares_compare_equal", case, &format!("extra man on {}", sq_name(x)));
+                        }
+                        ctx.feature("equality_different_start_squares");
+                    }
+                }
+            }
+        }
+    }
     // different start counters (same squares, same moves)
     let mut raw = obs.start;
     raw.move_number = if raw.move_number > 500 { raw.move_number - 300 } else { raw.move_number + 300 };
